@@ -302,7 +302,7 @@ func writeEvidence(cfg Config, prop string, sp *SpecProp, s *Session, reports []
 		cov["solver"] = map[string]any{
 			"solver": s.cfg.Solver + " (" + solverVersion(s.cfg.Solver) + ")", "queries": st.Queries, "answered_from_canonical_cache": st.CacheHits,
 			"sat": st.Sat, "unsat": st.Unsat, "unknown": st.Unknown, "errors": st.Errors, "solver_seconds": st.SolverSec,
-			"branch_feasibility_decided_by_byte_domain_enumeration": st.EnumQueries, "unsat_answers_cross_checked": st.XChecked, "cross_check_solver": s.cfg.XCheck, "cross_check_disagreements": st.XDisagree, "branch_decisions": st.Decides, "decided_syntactically": st.FastPath, "forks": st.Forks,
+			"branch_feasibility_decided_by_byte_domain_enumeration": st.EnumQueries, "unsat_answers_cross_checked": st.XChecked, "cross_check_solver": s.cfg.XCheck, "cross_check_disagreements": st.XDisagree, "cross_check_unknown_or_timeout": st.XUnknown, "branch_decisions": st.Decides, "decided_syntactically": st.FastPath, "forks": st.Forks,
 		}
 		cov["functions_encoded"] = s.UsedByClass()
 		cov["init_notes"] = s.InitErrs
